@@ -71,23 +71,62 @@ func getMapValueString(m map[string]interface{}, key string) string {
 }
 func getDescription(raw interface{}) string {
 	var desc string
+	var present bool
 
 	switch node := raw.(type) {
 	case ast.DescribableNode:
 		if sval := node.GetDescription(); sval != nil {
+			present = true
 			desc = sval.Value
 		}
 	case map[string]interface{}:
+		present = node["Description"] != nil
 		desc = getMapValueString(node, "Description.Value")
 	}
-	if desc != "" {
-		sep := ""
-		if strings.ContainsRune(desc, '\n') {
-			sep = "\n"
-		}
-		desc = join([]string{`"""`, desc, `"""`}, sep)
+	if !present {
+		return ""
 	}
-	return desc
+	if !blockStringSafe(desc) {
+		// not expressible as a block string that reads back unchanged: use an ordinary quoted string
+		return quoteString(desc)
+	}
+	sep := ""
+	if strings.ContainsRune(desc, '\n') {
+		sep = "\n"
+	}
+	return join([]string{`"""`, desc, `"""`}, sep)
+}
+
+// blockStringSafe reports whether s, written verbatim between triple quotes (on lines of its own when
+// it contains a newline; enclosing blocks may indent those lines further), is read back by the lexer
+// as exactly s.
+func blockStringSafe(s string) bool {
+	if s == "" || strings.Contains(s, `"""`) {
+		return false
+	}
+	for i := 0; i < len(s); i++ {
+		if c := s[i]; c < 0x20 && c != '\t' && c != '\n' {
+			return false // CR would be folded into LF, other control characters are rejected
+		}
+	}
+	lines := strings.Split(s, "\n")
+	if isBlank(lines[0]) || isBlank(lines[len(lines)-1]) {
+		return false // leading and trailing blank lines are dropped
+	}
+	if len(lines) == 1 {
+		last := s[len(s)-1]
+		return last != '"' && last != '\\' // would merge with the closing quotes
+	}
+	for _, line := range lines {
+		if !isBlank(line) && line[0] != ' ' && line[0] != '\t' {
+			return true
+		}
+	}
+	return false // every line is indented: the common indentation would be removed
+}
+
+func isBlank(line string) bool {
+	return strings.Trim(line, " \t") == ""
 }
 
 func toSliceString(slice interface{}) []string {
@@ -639,7 +678,7 @@ var printDocASTReducer = map[string]visitor.VisitFunc{
 			}
 			hasArgDesc := false
 			for _, arg := range node.Arguments {
-				if arg.Description != nil && arg.Description.Value != "" {
+				if arg.Description != nil {
 					hasArgDesc = true
 					break
 				}
@@ -665,7 +704,7 @@ var printDocASTReducer = map[string]visitor.VisitFunc{
 			}
 			hasArgDesc := false
 			for _, arg := range args {
-				if strings.HasPrefix(strings.TrimSpace(arg), `"""`) {
+				if strings.HasPrefix(strings.TrimSpace(arg), `"`) {
 					hasArgDesc = true
 					break
 				}
@@ -931,7 +970,7 @@ var printDocASTReducer = map[string]visitor.VisitFunc{
 			args := toSliceString(node.Arguments)
 			hasArgDesc := false
 			for _, arg := range node.Arguments {
-				if arg.Description != nil && arg.Description.Value != "" {
+				if arg.Description != nil {
 					hasArgDesc = true
 					break
 				}
@@ -953,7 +992,7 @@ var printDocASTReducer = map[string]visitor.VisitFunc{
 			args := toSliceString(getMapValue(node, "Arguments"))
 			hasArgDesc := false
 			for _, arg := range args {
-				if strings.HasPrefix(strings.TrimSpace(arg), `"""`) {
+				if strings.HasPrefix(strings.TrimSpace(arg), `"`) {
 					hasArgDesc = true
 					break
 				}
